@@ -8,6 +8,7 @@ import (
 	"reflect"
 	"testing"
 
+	"github.com/wmnsk/go-pfcp/ie"
 	"github.com/wmnsk/go-pfcp/message"
 	"pgregory.net/rapid"
 
@@ -23,7 +24,8 @@ func TestMain(m *testing.M) {
 			"Exhaustive part: every sequence up to depth 3 (quick) / 4 (thorough) over a 12-letter alphabet (2 peers x 2 seqs x {Heartbeat, Establishment} + 4 expiries), each on a fresh server; random part: histories up to 40 events over the full alphabet. "+
 			"Oracle: model map (addr,seq) -> answer bytes; a duplicate inside the window returns a byte-identical datagram (or nothing), causes no data-plane call and leaves the server snapshot unchanged; a request differing in address or sequence number is executed; "+
 			"after ExpireRx the entry is gone, the key is executed again, and after expiring everything the receive-transaction table is empty. "+
-			"non-trivial = (duplicate of a state-changing request and a request from another address with the same sequence number) or (an expiry followed by reuse of the key); distinct by history",
+			"Requests of the UPF's own (Session Report Requests go to port 8805 of the node, where the node's requests come from, and both sides count from small numbers) are sent, answered and abandoned under sequence numbers that retained requests of that node carry: the window must not notice. "+
+			"non-trivial = (duplicate of a state-changing request and a request from another address with the same sequence number) or (an expiry followed by reuse of the key) or (a request of the UPF's own completed or abandoned under a retained key, and a duplicate); distinct by history",
 		"in the model-based histories retention-timer expiry is injected through the public NotifyTransTimeout entry point and real timers are configured an hour ahead; "+
 			"part (b) uses the real window (20-180 ms): histories of answered and never-answered requests (Establishment for an unassociated node or without F-SEID, Association Update / Release, PFD Management), then more than the window of silence, then a Heartbeat Request re-using every earlier (address, sequence number): each must be executed (Heartbeat Response with that number; repeated every 300 ms, 10 s allowed)",
 		"a different request reusing a live (address, sequence) key is not generated: the statement speaks of the request 'received again'")
@@ -55,6 +57,8 @@ type entry struct {
 type stats struct {
 	dupState, foreignSameSeq, expireReuse bool
 	dups, firsts, expiries                int
+	ownReqs                               int
+	ownSameKey, ownDoneInWindow           bool // a request of the UPF's own shared (address, sequence number) with a retained one / was completed while that one was retained
 }
 
 func nodeOf(peer int) int {
@@ -83,6 +87,7 @@ func run(c Case) (v *vcore.Violation, stt stats) {
 	expired := map[key]bool{}
 	seqSeenBy := map[uint32]map[int]bool{}
 	lastSess := map[int]uint64{} // per node: UP SEID of the latest live session
+	ownOut := map[key]*stack.SRR{} // the UPF's own outstanding requests, by (node, sequence number)
 	farID := uint32(0)
 	cp := uint64(0x100)
 	probeAddr := st.Probe.Addr.String()
@@ -129,6 +134,85 @@ func run(c Case) (v *vcore.Violation, stt stats) {
 			if inModel {
 				delete(window, k)
 				expired[k] = true
+			}
+			continue
+		}
+		if ev.Kind == "srr" || ev.Kind == "srsp" || ev.Kind == "srgiveup" {
+			// the UPF's own transactions live in a table of their own, although both tables are keyed "<address>-<sequence number>":
+			// the UPF sends its Session Report Requests to port 8805 of the node, where the node's requests come from, and both
+			// sides count from small numbers.  Sending, completing or abandoning such a request must leave the window alone.
+			if ev.Peer >= 100 {
+				continue
+			}
+			nd := ev.Peer
+			switch ev.Kind {
+			case "srr":
+				if lastSess[nd] == 0 || ownOut[k] != nil {
+					continue
+				}
+				st.Srv.VerifSetTxSeq(ev.Seq) // the loop is idle (barrier passed)
+				o := r.Step(stack.Op{Kind: "report", Sess: -1, Raw: lastSess[nd], DLDR: true, PDR: 1, Action: 0x08})
+				if o.Dead != nil {
+					return vcore.Violatef(o.Dead.Key, "event %d: report: UPF fatal exit: %.400s", i, o.Dead.Msg), stt
+				}
+				if len(o.SRRs) != 1 || o.SRRs[0].Sock != nd || o.SRRs[0].Seq != ev.Seq {
+					return vcore.Violatef("own-request", "event %d: a downlink data notification for session %#x of node %d produced %d Session Report Request(s) (want 1 to the node, sequence %d)", i, lastSess[nd], nd, len(o.SRRs), ev.Seq), stt
+				}
+				srr := o.SRRs[0]
+				ownOut[k] = &srr
+				stt.ownReqs++
+				if window[k] != nil {
+					stt.ownSameKey = true
+				}
+			case "srsp":
+				srr := ownOut[k]
+				if srr == nil {
+					continue
+				}
+				delete(ownOut, k)
+				r.Pending[nd] = nil
+				rsp := message.NewSessionReportResponse(0, 0, lastSess[nd]|1, ev.Seq, 0, ie.NewCause(ie.CauseRequestAccepted))
+				o := r.SendRaw(nd, stack.Marshal(rsp))
+				if o.Dead != nil {
+					return vcore.Violatef(o.Dead.Key, "event %d: Session Report Response: UPF fatal exit: %.400s", i, o.Dead.Msg), stt
+				}
+				if len(o.Rx) != 0 {
+					return vcore.Violatef("response-answered", "event %d: a Session Report Response caused datagrams", i), stt
+				}
+				if window[k] != nil {
+					stt.ownDoneInWindow = true
+				}
+			case "srgiveup":
+				if ownOut[k] == nil {
+					continue
+				}
+				delete(ownOut, k)
+				for n := 0; n < 8; n++ {
+					id := ""
+					for tid, e := range st.Srv.VerifTxTable() {
+						if e.Addr == addrOf(nd) && e.Seq == ev.Seq {
+							id = tid
+						}
+					}
+					if id == "" {
+						break
+					}
+					if o := r.Step(stack.Op{Kind: "expire_tx", TrID: id}); o.Dead != nil {
+						return vcore.Violatef(o.Dead.Key, "event %d: expiry of the UPF's own request: UPF fatal exit: %.400s", i, o.Dead.Msg), stt
+					}
+					r.Pending[nd] = nil
+				}
+				if window[k] != nil {
+					stt.ownDoneInWindow = true
+				}
+			}
+			// black box check follows with the next duplicate; the table is looked at as well
+			keys := rxKeys()
+			for wk := range window {
+				if _, ok := keys[fmt.Sprintf("%s-%d", addrOf(wk.peer), wk.seq)]; !ok {
+					return vcore.Violatef("retention-lost", "event %d (%s, UPF's own request to %s with sequence number %d): the receive transaction (%s,%d) is gone from the table before its retention window ended",
+						i, ev.Kind, addrOf(nd), ev.Seq, addrOf(wk.peer), wk.seq), stt
+				}
 			}
 			continue
 		}
@@ -315,10 +399,16 @@ func account(c Case, s stats, exhaustive bool) {
 	if s.expireReuse {
 		vcore.E.Class("key_reused_after_expiry")
 	}
+	if s.ownSameKey {
+		vcore.E.Class("own_request_with_a_retained_key")
+	}
+	if s.ownDoneInWindow {
+		vcore.E.Class("own_request_completed_or_abandoned_inside_the_window")
+	}
 	if exhaustive {
 		vcore.E.Class("enumerated")
 	}
-	if (s.dupState && s.foreignSameSeq) || s.expireReuse {
+	if (s.dupState && s.foreignSameSeq) || s.expireReuse || (s.ownDoneInWindow && s.dups > 0) {
 		vcore.E.NonTrivial(vcore.JSON(c))
 		if !exhaustive {
 			vcore.E.Sample("random", brief(c))
@@ -461,6 +551,22 @@ func TestC06(t *testing.T) {
 	rec(nil, &idx)
 	vcore.E.SetExtra("enumerated_histories", fmt.Sprintf("all %d event sequences of length 1..%d over the 12-letter alphabet (striped over %d shard(s); this shard ran %d)", idx, depth, vcore.Cfg.Shards, count))
 
+	// the UPF's own requests under a retained key: sent / answered / abandoned between a request and its retransmission
+	for _, end := range []string{"srsp", "srgiveup", ""} {
+		for _, kind := range []string{"est", "mod", "del", "hb"} {
+			evs := []Ev{{"assoc", 0, 100}, {"assoc", 1, 100}, {"est", 0, 1}, {"est", 1, 1}, {kind, 0, 2}, {"srr", 0, 2}}
+			if end != "" {
+				evs = append(evs, Ev{end, 0, 2})
+			}
+			evs = append(evs, Ev{kind, 0, 2}, Ev{"est", 1, 1}, Ev{"expire", 0, 2}, Ev{kind, 0, 2})
+			c := Case{Evs: evs}
+			v, s := run(c)
+			account(c, s, false)
+			vcore.E.Class("scripted_own_request")
+			report(t, c, v)
+		}
+	}
+
 	// (b) real retention window (package rxwindow)
 	vcore.Check(t, vcore.N(30, 300), func(rt *rapid.T) {
 		runWindow(rt, rxwindow.Gen(rt), true)
@@ -472,7 +578,7 @@ func TestC06(t *testing.T) {
 	})
 
 	// random part
-	kinds := []string{"hb", "assoc", "est", "est", "estbad", "mod", "mod", "modunk", "del", "expire", "expire"}
+	kinds := []string{"hb", "assoc", "est", "est", "estbad", "mod", "mod", "modunk", "del", "expire", "expire", "srr", "srr", "srsp", "srgiveup"}
 	vcore.Check(t, vcore.N(300, 6000), func(rt *rapid.T) {
 		n := rapid.IntRange(2, 40).Draw(rt, "n")
 		evs := []Ev{{"assoc", 0, 77}}
